@@ -22,6 +22,7 @@ type Clause struct {
 	Callee string // for calls
 	File   string
 	Line   int
+	Pkg    string // package path of the declaring file (file-level clauses)
 }
 
 type FnContract struct {
@@ -47,6 +48,9 @@ type FnContract struct {
 	Nullable   []string // pointer params that may be nil
 	Fresh      bool     // results are freshly allocated
 	MayPanic   bool
+	RgEnsures    []*Clause // rely/guarantee tier: postconditions proved with every other request allowed to act between two store/Lightning calls
+	RgCalls      []*Clause // rely/guarantee tier: call-site clauses
+	RgInvariants []*Clause // rely/guarantee tier: loop invariants (the sequential ones are not used there)
 	Records    []string // ghost (error, counter) updated at every call site: `records api.err api.calls`
 	File       string
 	Line       int
@@ -86,13 +90,14 @@ type ContractSet struct {
 	Order      []string
 	Lemmas     []*Lemma
 	Structs    []*StructShape
+	Rely       []*Clause // what other requests may do to the ghost state in one step (two-state, old() = before)
 	Imports    map[string]string
 }
 
 var clauseKw = map[string]bool{"func": true, "requires": true, "ensures": true, "loop": true, "calls": true,
 	"tags": true, "safety": true, "boundary": true, "modifies": true, "trusted": true, "pure": true,
 	"bounded": true, "lemma": true, "import": true, "inline": true, "nobody": true, "nullable": true,
-	"fresh": true, "maypanic": true, "records": true, "struct": true, "end": true, "macro": true, "assumes": true, "given": true, "presumes": true, "implements": true}
+	"fresh": true, "maypanic": true, "records": true, "struct": true, "rgensures": true, "rgcalls": true, "rgloop": true, "rely": true, "end": true, "macro": true, "assumes": true, "given": true, "presumes": true, "implements": true}
 
 var reTagList = regexp.MustCompile(`^\[([A-Za-z0-9, ]+)\]\s*`)
 var reAtName = regexp.MustCompile(`^@([A-Za-z0-9_.\-]+)\s*`)
@@ -228,6 +233,15 @@ func (cs *ContractSet) ParseContractFile(path, pkgPath string) error {
 			if params != nil {
 				cur.ParamNames = params
 			}
+		case "rely":
+			// rely @name expr   (two-state: old(x) is the value before the other request's step)
+			c, err := parseClause("rely", rest)
+			if err != nil {
+				return err
+			}
+			c.Pkg = pkgPath
+			cs.Rely = append(cs.Rely, c)
+			cur = nil
 		case "struct":
 			// struct pkg.Type [tags] Field Field ...
 			f := strings.SplitN(rest, " ", 2)
@@ -305,7 +319,7 @@ func (cs *ContractSet) ParseContractFile(path, pkgPath string) error {
 				cur.Bounded = rest
 			case "end":
 				cur = nil
-			case "requires", "ensures", "boundary", "assumes", "given", "presumes":
+			case "requires", "ensures", "boundary", "assumes", "given", "presumes", "rgensures":
 				c, err := parseClause(kw, rest)
 				if err != nil {
 					return err
@@ -323,8 +337,10 @@ func (cs *ContractSet) ParseContractFile(path, pkgPath string) error {
 					cur.Given = append(cur.Given, c)
 				case "presumes":
 					cur.Presumes = append(cur.Presumes, c)
+				case "rgensures":
+					cur.RgEnsures = append(cur.RgEnsures, c)
 				}
-			case "loop":
+			case "loop", "rgloop":
 				// loop <key> invariant <expr>
 				i := strings.Index(rest, " invariant ")
 				if i < 0 {
@@ -335,8 +351,12 @@ func (cs *ContractSet) ParseContractFile(path, pkgPath string) error {
 					return err
 				}
 				c.Loop = strings.TrimSpace(rest[:i])
-				cur.Invariants = append(cur.Invariants, c)
-			case "calls":
+				if kw == "rgloop" {
+					cur.RgInvariants = append(cur.RgInvariants, c)
+				} else {
+					cur.Invariants = append(cur.Invariants, c)
+				}
+			case "calls", "rgcalls":
 				i := strings.Index(rest, " asserts ")
 				if i < 0 {
 					return fail("calls <callee> asserts <expr>")
@@ -350,7 +370,11 @@ func (cs *ContractSet) ParseContractFile(path, pkgPath string) error {
 					return fail("%v", err)
 				}
 				c.Callee = ck
-				cur.Calls = append(cur.Calls, c)
+				if kw == "rgcalls" {
+					cur.RgCalls = append(cur.RgCalls, c)
+				} else {
+					cur.Calls = append(cur.Calls, c)
+				}
 			default:
 				return fail("unknown clause keyword %q", kw)
 			}
